@@ -115,7 +115,8 @@ TEXT = {
            "repair is refuted by a witness. Tied to the code by per-event differential execution (single node under adversarial requests with all "
            "coordinates + simulated clusters). Cluster-level tie (Props/AbsTie.v): in every whole-cluster history accepted by the proved-sound checker "
            "Abs/Exec.v (crashes and restarts included) a node's observed term never decreases and a vote cast in a term stays "
-           "(observed_term_vote_monotone).",
+           "(observed_term_vote_monotone). The order 'persist the self vote, then ask for votes' that the model's atomic election event assumes is observed on "
+           "the real code: the simulator reads the candidate's durable term and vote at the instant each of its vote requests is written.",
   "design_ref": "DESIGN.md 5 (C05)",
   "note": NODE_NOTE,
   "technique": "Coq invariant proof over all node events + per-event differential correspondence with the real handlers",
